@@ -14,11 +14,18 @@ Proved here, for realms / tables / change lists of any size and any pattern:
 * `skip_sound`, `skip_complete` – a list built with `AddOrSkip` contains no skipped kind and contains
   every other change, in order.
 
-PARTIAL: the nested statement "no skipped kind at any nesting level of SchemaDiff" needs the differ
-model (C02) and is covered by the correspondence run (soundness + completeness monitor on the three
-real differs); triggers / functions / procedures / realm objects are not modelled.
+* `skip_nested_sound`, `skip_nested_complete`, `skip_nothing` – over the differ model of C02
+  (`Atlas.Diff.schemaDiffSkip`, tied to the real `SchemaDiff(…, DiffSkipChanges(…))` of the three dialects by
+  the C02/C19 correspondence): for ANY pair of schemas and ANY skip list, no change of a skipped kind is
+  reported at either nesting level and no table modification is left empty; every change of another kind
+  that the unrestricted diff reports is still reported (inside its table's modification when that one is
+  not skipped itself); an empty skip list changes nothing.
+
+PARTIAL: triggers / functions / procedures / realm objects are not modelled; the kinds of table-attribute
+changes (AddAttr / DropAttr / ModifyAttr) are one abstract kind.
 -/
 import Atlas.Exclude
+import Atlas.Diff
 
 namespace Props.C19
 open Atlas Atlas.Exclude
@@ -179,5 +186,112 @@ example : (excludeT t1 "c[12][type=column]".toList).toOption.map (fun t => (t.co
 
 /-- a malformed child pattern is an error (it used to wipe the table silently). -/
 example : (excludeT t1 "c[".toList).toOption = none := by decide
+
+/-! ### skipped kinds at every nesting level of the schema diff -/
+
+open Atlas.Diff in
+/-- **skip_nested_sound**: no reported change is of a skipped kind, at the top level or inside a table
+modification, and no table modification is empty. -/
+theorem skip_nested_sound (sk : List Kind) (frm to : List Atlas.Diff.Table) (c : Atlas.Diff.Change)
+    (hc : c ∈ schemaDiffSkip sk frm to) :
+    sk.contains c.kind = false ∧
+    ∀ n subs, c = .modifyTable n subs → subs ≠ [] ∧ ∀ s ∈ subs, sk.contains s.kind = false := by
+  unfold schemaDiffSkip skipDiff at hc
+  rw [List.mem_filterMap] at hc
+  obtain ⟨c0, _, h0⟩ := hc
+  cases c0 with
+  | modifyTable n subs =>
+    simp only [skipC] at h0
+    split at h0
+    · cases h0
+    · rename_i hcond
+      simp only [Bool.or_eq_true, not_or, Bool.not_eq_true] at hcond
+      simp only [Option.some.injEq] at h0
+      subst h0
+      refine ⟨hcond.2, ?_⟩
+      intro n' subs' he
+      cases he
+      refine ⟨?_, ?_⟩
+      · intro hnil; rw [hnil] at hcond; simp at hcond
+      · intro s hs
+        simp only [skipT, List.mem_filter, Bool.not_eq_true'] at hs
+        exact hs.2
+  | dropTable n =>
+    simp only [skipC] at h0
+    split at h0
+    · cases h0
+    · rename_i hk
+      simp only [Option.some.injEq] at h0; subst h0
+      exact ⟨by simpa using hk, fun _ _ he => by cases he⟩
+  | addTable n =>
+    simp only [skipC] at h0
+    split at h0
+    · cases h0
+    · rename_i hk
+      simp only [Option.some.injEq] at h0; subst h0
+      exact ⟨by simpa using hk, fun _ _ he => by cases he⟩
+
+open Atlas.Diff in
+/-- **skip_nested_complete**: every change of an unskipped kind that the unrestricted diff reports is
+still reported: a table addition / drop as it is; a sub-change inside the modification of its table,
+unless table modifications are skipped altogether. -/
+theorem skip_nested_complete (sk : List Kind) (frm to : List Atlas.Diff.Table) (c : Atlas.Diff.Change)
+    (hc : c ∈ schemaDiff frm to) (hk : sk.contains c.kind = false) :
+    (∀ n subs, c ≠ .modifyTable n subs) → c ∈ schemaDiffSkip sk frm to := by
+  intro hnm
+  unfold schemaDiffSkip skipDiff
+  rw [List.mem_filterMap]
+  refine ⟨c, hc, ?_⟩
+  cases c with
+  | modifyTable n subs => exact absurd rfl (hnm n subs)
+  | dropTable n => simp only [skipC]; rw [if_neg (by simpa using hk)]
+  | addTable n => simp only [skipC]; rw [if_neg (by simpa using hk)]
+
+open Atlas.Diff in
+theorem skip_nested_complete_sub (sk : List Kind) (frm to : List Atlas.Diff.Table) (n : Nat) (subs : List TChange)
+    (hc : Change.modifyTable n subs ∈ schemaDiff frm to) (hm : sk.contains Kind.modifyTable = false)
+    (s : TChange) (hs : s ∈ subs) (hk : sk.contains s.kind = false) :
+    ∃ subs', Change.modifyTable n subs' ∈ schemaDiffSkip sk frm to ∧ s ∈ subs' ∧ subs' = skipT sk subs := by
+  refine ⟨skipT sk subs, ?_, ?_, rfl⟩
+  · unfold schemaDiffSkip skipDiff
+    rw [List.mem_filterMap]
+    refine ⟨_, hc, ?_⟩
+    simp only [skipC]
+    have hne : (skipT sk subs).isEmpty = false := by
+      cases h : skipT sk subs with
+      | nil =>
+        have hk' : s.kind ∉ sk := by simpa using hk
+        have : s ∈ skipT sk subs := by simp [skipT, hs, hk']
+        rw [h] at this; cases this
+      | cons _ _ => rfl
+    rw [hne, hm]; rfl
+  · have hk' : s.kind ∉ sk := by simpa using hk
+    simp [skipT, hs, hk']
+
+open Atlas.Diff in
+/-- **skip_nothing**: an empty skip list changes nothing (no table modification of the diff is empty). -/
+theorem skip_nothing (cs : List Atlas.Diff.Change) (hne : ∀ n, Change.modifyTable n [] ∉ cs) : skipDiff [] cs = cs := by
+  unfold skipDiff
+  induction cs with
+  | nil => rfl
+  | cons c rest ih =>
+    have ih' := ih (fun n h => hne n (List.mem_cons_of_mem _ h))
+    rw [List.filterMap_cons]
+    cases c with
+    | modifyTable n subs =>
+      have : subs ≠ [] := fun h => hne n (by rw [h]; exact List.mem_cons_self ..)
+      have hs : skipT [] subs = subs := by simp [skipT]
+      simp only [skipC, hs]
+      cases subs with
+      | nil => exact absurd rfl this
+      | cons _ _ => simp [ih']
+    | dropTable n => simp [skipC, ih']
+    | addTable n => simp [skipC, ih']
+
+open Atlas.Diff in
+example : schemaDiffSkip [.addColumn, .dropTable]
+    [{ name := 1, cols := [⟨1, [0]⟩] }, { name := 2, cols := [] }]
+    [{ name := 1, cols := [⟨1, [0]⟩, ⟨2, [0]⟩], idxs := [⟨some 1, false, false, [⟨1, false, 0⟩], 0⟩] }] =
+    [.modifyTable 1 [.addIndex ⟨some 1, false, false, [⟨1, false, 0⟩], 0⟩]] := by decide
 
 end Props.C19
